@@ -10,7 +10,7 @@ package cluster
 //verif:stub github.com/tucats/ego/internal/util.ErrorResponse = c29ErrorResponse
 //verif:stub github.com/tucats/ego/internal/i18n.Text = c29Text
 //verif:stub github.com/tucats/ego/internal/cli/settings.GetInt = c29GetInt
-//verif:bound origin step: an arbitrary list of 0..4 active peers, each send succeeding or failing arbitrarily; receive step: an arbitrary flush request (cache id one of three caches, arbitrary hop count, arbitrary sender), valid or invalid cluster token, decodable or not
+//verif:bound origin step: an arbitrary list of 0..4 active peers, each send succeeding or failing arbitrarily; receive step: an arbitrary flush request (cache id one of six cache classes (including the three OAuth ones), arbitrary hop count, arbitrary sender), valid or invalid cluster token, decodable or not
 //verif:assume the two per-node step lemmas compose: a purge at one node sends exactly one flush per active peer (origin step) and a node that receives a flush never sends one (receive step), so the total number of messages per purge is the number of peers, whatever the cluster size
 //verif:note the origin step has a native twin (real SQLite membership table, real HTTP peers) used for replay
 //verif:outside delay and loss of the real HTTP messages; the membership table in SQL; the JSON wire format
@@ -104,11 +104,12 @@ func VerifC29_originSendsOncePerPeer() {
 // VerifC29_receiverPurgesAndNeverRebroadcasts
 func VerifC29_receiverPurgesAndNeverRebroadcasts() {
 	if !sym.Symbolic() {
+		c29NativeReceiver() // c29_twin.go: a real request with the real cluster token and JSON body
 		return
 	}
 	ClusterName, systemDB = "c", new(sql.DB)
 	c29Peers = []defs.ClusterMember{{NodeID: "n1"}, {NodeID: "n2"}}
-	ids := []int{caches.UserCache, caches.TokenCache, caches.DSNCache}
+	ids := []int{caches.UserCache, caches.TokenCache, caches.DSNCache, caches.OAuthCodeCache, caches.OAuthRefreshCache, caches.OAuthJWTCache}
 	id := ids[sym.Choice("cache", len(ids))]
 	for _, c := range ids {
 		caches.PurgeLocal(c)
@@ -122,6 +123,8 @@ func VerifC29_receiverPurgesAndNeverRebroadcasts() {
 	c29Sent, c29Responded = nil, 0
 	st := FlushCacheHandler(&router.Session{ID: 1, Language: "en"}, &c29Writer{hdr: http.Header{}}, &http.Request{Header: http.Header{}})
 	sym.Reach("handled")
+	sym.Observe("statusClass", st/100)
+	sym.Observe("cacheKept", caches.Size(id))
 	sym.Assert(len(c29Sent) == 0, "a node re-broadcast a flush it received")
 	sym.Assert(purged == 0, "a received flush fired the purge notification (which broadcasts)")
 	if c29Token && !c29DecodeErr {
